@@ -5,6 +5,7 @@ package main
 
 import (
 	"bytes"
+	"crypto/x509"
 	"crypto/x509/pkix"
 	"encoding/asn1"
 	"encoding/hex"
@@ -213,7 +214,7 @@ func observeDir(m fstest.MapFS, reg *keyRegistry) ([]J, map[string]certObs) {
 			e["csr"] = cj
 		}
 		if it.o.CertDer != nil {
-			cj := J{"der": hex.EncodeToString(it.o.CertDer), "split": it.co.OK, "subjectKey": -1}
+			cj := J{"der": hex.EncodeToString(it.o.CertDer), "split": it.co.OK, "subjectKey": -1, "x509": x509Accepts(it.o.CertDer, it.co)}
 			if it.co.OK {
 				cj["subjectKey"] = reg.idOfPublic(it.co.SpkiAlg, it.co.SpkiKey)
 			}
@@ -395,3 +396,25 @@ func genPki(yield func(any)) {
 func init() { register("pki", genPki, execPki) }
 
 func nowMinusHour() time.Time { return time.Now().Add(-time.Hour) }
+
+// x509Accepts: crypto/x509 as the second, independent parser, where it supports the key type (RSA, NIST curves)
+func x509Accepts(der []byte, co certObs) any {
+	if !co.OK {
+		return false
+	}
+	if co.SpkiAlg.Algorithm.Equal(hOidEc) {
+		var oid asn1.ObjectIdentifier
+		if _, err := asn1.Unmarshal(co.SpkiAlg.Parameters.FullBytes, &oid); err != nil {
+			return nil
+		}
+		switch oid.String() {
+		case "1.3.132.0.33", "1.2.840.10045.3.1.7", "1.3.132.0.34", "1.3.132.0.35":
+		default:
+			return nil
+		}
+	} else if !co.SpkiAlg.Algorithm.Equal(hOidRsa) {
+		return nil
+	}
+	_, err := x509.ParseCertificate(der)
+	return err == nil
+}
